@@ -60,6 +60,16 @@ func errorFamilyPaths(maxLen int) []*Expr {
 		}
 		es = append(es, eExists(a), eStartsWith(a, eStr("a")), eLikeRegex(a, "a", ""), eRoot(sIndex(sub1(a))), eNot(eExists(a)), eIsUnknown(eCmp("==", a, eInt(1))))
 	}
+	// an operator expression as a path item followed by a further step (in existence mode the step
+	// must still be evaluated): succeeding, empty, failing softly and failing hard
+	for _, x := range []*Expr{eRoot(), eRoot(sKey("a")), eRoot(sAnyArray()), eVar("missing"), eInt(1)} {
+		for _, o := range []*Expr{eArith("+", x, eInt(1)), eArith("*", eInt(2), x), eNeg(x), ePos(x), eCmp("==", x, eInt(1)), eExists(x), eNot(eExists(x)), eIsUnknown(eCmp(">", x, eInt(0))),
+			eStartsWith(x, eStr("a")), eLikeRegex(x, "a", ""), eAnd(eExists(x), eCmp("==", x, eInt(1)))} {
+			for _, st := range []*Expr{sKey("zz"), sMethod("type"), sMethod("double"), sMethod("boolean"), sIndex(sub1(eInt(5))), sIndex(sub1(eInt(0))), sFilter(eCmp("==", eCur(), eInt(1))), sAnyArray()} {
+				es = append(es, o.withSteps(st))
+			}
+		}
+	}
 	return es
 }
 
